@@ -361,6 +361,13 @@ impl Prop for C20 {
             "for grammars with more than 2000 tokens/rules a cheap summary replaces the full digest (token_idx is linear, the full digest quadratic)".into(),
         ]
     }
+    /// An inflated grammar can need more than the worker's 3 GB for its u32 table (a production
+    /// with a couple of hundred references to a recursive rule: the Pager's construction of one
+    /// such grammar takes 13 GB in nimbleparse as well); that is the generator's doing, not a
+    /// statement about widths.
+    fn crash_is_resource_exhaustion(&self, case: &Value) -> bool {
+        case["family"] == "inflated"
+    }
     fn required_classes(&self, _tier: Tier) -> Vec<&'static str> {
         vec!["u8:refused", "u8:ok", "u16:refused", "u16:ok", "u32:ok", "family:small", "family:inflated", "family:tokens", "family:states", "family:lexrules", "family:lexrules-mixed"]
     }
